@@ -64,6 +64,8 @@ func queries() []*qgen.Query {
 		{Root: []*qgen.Node{Arg(FA("u", "user", FA("f", "friend", FA("s", "score")), F("items", FA("n", "name"))), "id", int64(1)), F("count")}},
 		{Root: []*qgen.Node{F("items", F("owner", F("score"), F("friend", F("id"))))}},
 		{Root: []*qgen.Node{F("users", F("fav", On("Item", F("owner", F("id"))), On("User", F("score"))), F("friend", F("items", F("id"))))}},
+		// a list with null entries in front of and between the objects (list indices in the error path)
+		{Root: []*qgen.Node{F("usersN", F("id"), F("score"), F("friend", F("score")))}},
 		// resolvers whose only result is an error
 		{Root: []*qgen.Node{F("users", F("id"), F("ack"), F("friend", FA("a", "ack")))}},
 	}
@@ -267,7 +269,7 @@ func runSched(rp *explore.Report, tier string) {
 
 func init() {
 	reg.Register(&reg.Harness{Property: "C16", Name: "c16/execute-sequential", Level: "model_checking", Run: runSeq,
-		Rule: "sequential part: 5 queries (nested objects, lists, aliases, unions, resolvers whose only result is an error) x every single failing field instance and pairs of them (incl. one that is never reached) x failure kind {error, SafeError, wrapped safe error, panic} x field modes {plain, expensive, batch, mixed parallel} x FIFO/LIFO schedulers; oracle: Execute returns (nil, err) and err is exactly `path: message` of a failing reached field instance (response path with aliases and list indices; any member of the unit for batch fields), or the bare message for client-safe errors; no failure when no failing field is reached"})
+		Rule: "sequential part: 6 queries (nested objects, lists, lists with null entries, aliases, unions, resolvers whose only result is an error) x every single failing field instance and pairs of them (incl. one that is never reached) x failure kind {error, SafeError, wrapped safe error, panic} x field modes {plain, expensive, batch, mixed parallel} x FIFO/LIFO schedulers; oracle: Execute returns (nil, err) and err is exactly `path: message` of a failing reached field instance (response path with aliases and list indices; any member of the unit for batch fields), or the bare message for client-safe errors; no failure when no failing field is reached"})
 	reg.Register(&reg.Harness{Property: "C16", Name: "c16/execute-scheduled", Level: "model_checking", Bounds: [2]int{2, 3}, Run: runSched,
 		Item: func(name string) *explore.Item {
 			for _, c := range cases("thorough") {
